@@ -585,6 +585,9 @@ func (l *lowerer) errorResponse(er *ErrorResponse) *dt.Node {
 	for _, h := range er.Headers {
 		b = append(b, dt.N("Header", dt.S(mapName(h))))
 	}
+	if er.BodyAttr != "" {
+		b = append(b, dt.N("Body", dt.S(er.BodyAttr)))
+	}
 	if l.pick(3) == 1 {
 		// Response("name", func(){ Code(status); ... })
 		return dt.N("Response", dt.S(er.Name)).With(append([]*dt.Node{dt.N("Code", dt.C(statusConst(er.Status)))}, b...)...)
